@@ -1,9 +1,192 @@
 import StraxModel.Driver.Parse
-namespace Strax.Driver
-open Strax
+import StraxModel.Model.Lineage
+/-
+  Driver of property C02.  All ops start with `c02.`.  Values, classes and histories are sent in
+  prefix notation (space separated tokens); every string payload is written `~text` so that the
+  empty string is a token too.
 
-/-- ops of property C02 (stub: no ops yet) -/
+    val   ::= i <int> | s ~str | t <n> val*n | l <n> val*n | d <n> (~key val)*n | S <n> ~str*n
+    opt   ::= ~name <track 0/1> (~parent | -) (0 | 1 val)
+    class ::= ~name ~version ~provides <n> ~dep*n <child 0/1> <n> (~base ~version)*n ~compressor <timeout> <n> opt*n
+    op    ::= SC <who> <n> (~key val)*n | RG <who> class | NC <who> | SF <who> <n> ~t*n <n> ~o*n
+            | LN <who> ~d | ST <who> ~d | MK <who> ~d | GT <who> ~d | LS   (LS: list the directory)
+
+    c02.canon val                 -> the JSON text fed to SHA-1 (now / before the set fix: c02.canon0)
+    c02.run <rules> op*           -> outputs of all ops, joined by " ;; "
+    c02.match <canonMatch 0/1> lineage lineage <n> ~t*n <n> ~o*n   (lineage ::= <n> (~type ~cls ~version <n> (~key val)*n)*n)
+-/
+namespace Strax.Driver
+open Strax Strax.Lineage
+
+abbrev Toks := List String
+
+def pStr : Toks → Option (String × Toks)
+  | t :: rest => if t.startsWith "~" then some ((t.drop 1).toString, rest) else none
+  | [] => none
+
+def pNat : Toks → Option (Nat × Toks)
+  | t :: rest => do pure (← t.toNat?, rest)
+  | [] => none
+
+def pInt : Toks → Option (Int × Toks)
+  | t :: rest => do pure (← t.toInt?, rest)
+  | [] => none
+
+def pBool : Toks → Option (Bool × Toks)
+  | t :: rest => do pure (← parseBool t, rest)
+  | [] => none
+
+/-- `n` repetitions of a token parser -/
+def pMany (p : Toks → Option (α × Toks)) : Nat → Toks → Option (List α × Toks)
+  | 0, ts => some ([], ts)
+  | n + 1, ts => do
+    let (a, ts) ← p ts
+    let (as, ts) ← pMany p n ts
+    pure (a :: as, ts)
+
+def pCounted (p : Toks → Option (α × Toks)) (ts : Toks) : Option (List α × Toks) := do
+  let (n, ts) ← pNat ts
+  pMany p n ts
+
+/-- values; fuel bounds the nesting depth -/
+def pVal : Nat → Toks → Option (Val × Toks)
+  | 0, _ => none
+  | fuel + 1, t :: ts =>
+    if t == "i" then do let (i, ts) ← pInt ts; pure (.int i, ts)
+    else if t == "s" then do let (s, ts) ← pStr ts; pure (.str s, ts)
+    else if t == "t" then do let (l, ts) ← pCounted (pVal fuel) ts; pure (.seq true l, ts)
+    else if t == "l" then do let (l, ts) ← pCounted (pVal fuel) ts; pure (.seq false l, ts)
+    else if t == "S" then do let (l, ts) ← pCounted pStr ts; pure (.sset l, ts)
+    else if t == "d" then do
+      let (l, ts) ← pCounted (fun ts => do
+        let (k, ts) ← pStr ts
+        let (v, ts) ← pVal fuel ts
+        pure ((k, v), ts)) ts
+      pure (.dict l, ts)
+    else none
+  | _, [] => none
+
+def pValue (ts : Toks) : Option (Val × Toks) := pVal 32 ts
+
+def pKV (ts : Toks) : Option ((String × Val) × Toks) := do
+  let (k, ts) ← pStr ts
+  let (v, ts) ← pValue ts
+  pure ((k, v), ts)
+
+def pOpt (ts : Toks) : Option (Opt × Toks) := do
+  let (name, ts) ← pStr ts
+  let (track, ts) ← pBool ts
+  let (parent, ts) ← match ts with
+    | "-" :: rest => some (none, rest)
+    | _ => do let (p, ts) ← pStr ts; pure (some p, ts)
+  let (has, ts) ← pBool ts
+  if has then do
+    let (v, ts) ← pValue ts
+    pure (⟨name, some v, track, parent⟩, ts)
+  else pure (⟨name, none, track, parent⟩, ts)
+
+def pClass (ts : Toks) : Option (PluginClass × Toks) := do
+  let (name, ts) ← pStr ts
+  let (version, ts) ← pStr ts
+  let (provides, ts) ← pStr ts
+  let (deps, ts) ← pCounted pStr ts
+  let (child, ts) ← pBool ts
+  let (bases, ts) ← pCounted (fun ts => do
+    let (b, ts) ← pStr ts
+    let (v, ts) ← pStr ts
+    pure ((b, v), ts)) ts
+  let (compressor, ts) ← pStr ts
+  let (timeout, ts) ← pInt ts
+  let (opts, ts) ← pCounted pOpt ts
+  pure (⟨name, version, provides, deps, opts, child, bases, compressor, timeout⟩, ts)
+
+/-- `LS` (no context): list the shared directory; everything else is an op of one context -/
+def pOp : Toks → Option (Option Op × Toks)
+  | "LS" :: ts => some (none, ts)
+  | tag :: ts => do
+    let (o, ts) ← pCtxOp tag ts
+    pure (some o, ts)
+  | [] => none
+where pCtxOp (tag : String) (ts : Toks) : Option (Op × Toks) := do
+    let (who, ts) ← pBool ts
+    if tag == "SC" then do let (kvs, ts) ← pCounted pKV ts; pure (⟨who, .setConfig kvs⟩, ts)
+    else if tag == "RG" then do let (c, ts) ← pClass ts; pure (⟨who, .register c⟩, ts)
+    else if tag == "NC" then pure (⟨who, .newContext⟩, ts)
+    else if tag == "SF" then do
+      let (ff, ts) ← pCounted pStr ts
+      let (ffo, ts) ← pCounted pStr ts
+      pure (⟨who, .setFuzzy ff ffo⟩, ts)
+    else do
+      let (d, ts) ← pStr ts
+      if tag == "LN" then pure (⟨who, .lineage d⟩, ts)
+      else if tag == "ST" then pure (⟨who, .isStored d⟩, ts)
+      else if tag == "MK" then pure (⟨who, .make d⟩, ts)
+      else if tag == "GT" then pure (⟨who, .get d⟩, ts)
+      else none
+
+/-- all ops until the tokens run out -/
+def pOps : Nat → Toks → Option (List (Option Op))
+  | _, [] => some []
+  | 0, _ => none
+  | fuel + 1, ts => do
+    let (o, ts) ← pOp ts
+    let os ← pOps fuel ts
+    pure (o :: os)
+
+def pLineage (ts : Toks) : Option (Lineage × Toks) :=
+  pCounted (fun ts => do
+    let (t, ts) ← pStr ts
+    let (c, ts) ← pStr ts
+    let (v, ts) ← pStr ts
+    let (cfg, ts) ← pCounted pKV ts
+    pure ((t, (⟨c, v, cfg⟩ : Entry)), ts)) ts
+
+def pRules (s : String) : Option Rules :=
+  if s == "fixed" then some Rules.fixed
+  else if s == "old" then some Rules.old
+  else if s == "mergedhash" then some Rules.mergedHash
+  else if s == "pyeqmatch" then some Rules.pyEqMatch
+  else none
+
+def showLineage (l : Lineage) : String := canonString (lineageCanon l)
+
+def showOut : Out → String
+  | .err e => showErr e
+  | .unit => "ok"
+  | .lin l => "ok " ++ showLineage l
+  | .bool b => if b then "ok True" else "ok False"
+  | .data prov fuzzy => if fuzzy then "ok fuzzy" else "ok " ++ showLineage prov
+
+def showListing (storage : List (Item String)) : String :=
+  let l := sortS (storage.map fun it => it.dataType ++ "=" ++ showLineage it.lineage)
+  if l.isEmpty then "ok -" else "ok " ++ " & ".intercalate l
+
+/-- the driver instantiates the abstract hash with the identity on the JSON text -/
+def runHistory (rules : Rules) : State String → List (Option Op) → List String
+  | _, [] => []
+  | s, none :: os => showListing s.storage :: runHistory rules s os
+  | s, some o :: os =>
+    match step rules (fun x : String => x) s o with
+    | (out, s') => showOut out :: runHistory rules s' os
+
 def handleC02 : List String → Option String
+  | "c02.canon" :: ts => do
+    let (v, rest) ← pValue ts
+    if rest.isEmpty then pure ("ok " ++ canonString (canon v)) else none
+  | "c02.canon0" :: ts => do
+    let (v, rest) ← pValue ts
+    if rest.isEmpty then pure ("ok " ++ canonString (canonWith false v)) else none
+  | "c02.run" :: rules :: ts => do
+    let rules ← pRules rules
+    let ops ← pOps (ts.length + 1) ts
+    pure (" ;; ".intercalate (runHistory rules State.init ops))
+  | "c02.match" :: cm :: ts => do
+    let cm ← parseBool cm
+    let (stored, ts) ← pLineage ts
+    let (want, ts) ← pLineage ts
+    let (ff, ts) ← pCounted pStr ts
+    let (ffo, ts) ← pCounted pStr ts
+    if ts.isEmpty then pure (if fuzzyMatches cm stored want ff ffo then "ok True" else "ok False") else none
   | _ => none
 
 end Strax.Driver
